@@ -9,7 +9,7 @@ def run(pid, tier, seed, replay):
     ctx.trusted.append("partial: the LTS (Log/HwWait.v) has one transition per critical section of SetHighWatermark / waitForHW / reader step; the Go scheduler, memory model and channel semantics are not modelled -- the concurrent stress run with an online monitor is what connects the theorem to the runtime (race detector in the thorough tier)")
     ctx.coq_cone("Properties/C03.v")
     # deterministic part: histories with live committed readers, compared step by step with the model
-    env = {"VERIF_PROFILE": "c01", "VERIF_N": 120 if tier == "quick" else 1500, "VERIF_SEED": seed + 303}
+    env = {"VERIF_PROFILE": "c03", "VERIF_N": 150 if tier == "quick" else 2000}
     lines = ctx.go_driver("server/commitlog", ["commitlog/logdrv_test.go"], "^TestVerifLog$", env=env, timeout=1500)
     cases = [l for l in lines if l.get("k") == "log"]
     # concurrent part
